@@ -1066,10 +1066,9 @@ fn main() {
             if INVALID_RESULTS.load(std::sync::atomic::Ordering::Relaxed) != before {
                 tags.push_str(" wf:result-fails-validate_full");
             }
-            if tags.contains("take:oob-") && !tags.contains("take:oob-focus ") || (tags.contains("take:oob-checked") || tags.contains("take:oob-unchecked")) {
-                if a != "PANIC" && !a.starts_with("ERR:") {
-                    tags.push_str(" take:oob-returned-ok");
-                }
+            // a take with an out-of-range valid index that nevertheless returned rows
+            if (tags.contains("take:oob-checked") || tags.contains("take:oob-unchecked")) && a != "PANIC" && !a.starts_with("ERR:") {
+                tags.push_str(" take:oob-returned-ok");
             }
             if a.starts_with("BAD:") {
                 // the result array is not made of input rows / fails validation: property violated
